@@ -390,6 +390,29 @@ func runC12Fault(sc *Scenario, f Fault, base Event, st *Stats) []Violation {
 			applied = f.Part
 		}
 		ev := w.H.log[f.Call]
+		// write calls of the same statement that succeeded before the faulted one
+		// took effect as well (the split of a statement's writes into calls is the
+		// library's business; all-or-nothing is promised for evaluation failures,
+		// not for storage failures)
+		for _, pe := range w.H.log[r.EvFrom:f.Call] {
+			if pe.Err != "" {
+				continue
+			}
+			switch pe.Op {
+			case OpPut:
+				model[pe.Key] = pe.Vals[0]
+			case OpDel:
+				delete(model, pe.Key)
+			case OpBPut:
+				for i := range pe.Keys {
+					model[pe.Keys[i]] = pe.Vals[i]
+				}
+			case OpBDel:
+				for i := range pe.Keys {
+					delete(model, pe.Keys[i])
+				}
+			}
+		}
 		for i := 0; i < applied; i++ {
 			switch ev.Op {
 			case OpPut:
